@@ -46,7 +46,7 @@ def plan(tier):
         "shards": 16,
         "budget_s": 45 if q else 540,
         "timeout_s": 600 if q else 3600,
-        "min_nontrivial": 40 if q else 1500,
+        "min_nontrivial": 30 if q else 1000,
         "required_counters": ["node_evaluations", "subset_judged", "segmentation_crosschecked"],
         "rule": "seeded expressions: 22% parameter references (dot / single / double quoted, nested fields, interpolated "
                 "with text and escaped \\$( ), 78% JavaScript $(expr) / ${body} assembled from 1..3 fragments (dot, bracket, "
